@@ -60,7 +60,7 @@ def gen_cases(ctx):
             "duration_range": rng.choice([[1, 99], [1, 1], [5, 5], [0, 3], [10, 20], [0, 0], [0, 1]]),
             "allow_less_jobs_than_machines": not flag,
             "allow_recirculation": rng.random() < 0.4,
-            "machines_per_operation": 1,
+            "machines_per_operation": rng.choice([1, 1, 1, [1, 1]]),     # the int or the equivalent pair
             "seed": rng.choice([0, 0, 1, 2**31 - 1] + [rng.randrange(10**6)] * 16),
             "iteration_limit": rng.choice([None, 0, 1, 3, 7]),
         }
@@ -208,6 +208,24 @@ def run_case(ctx, case):
             ctx.violation("c19_single_machine_operations_not_drawn_from_all_machines",
                           {"params": p, "instances_drawn": n7,
                            "log_probability_of_no_coincidence_under_uniform_draws": logp})
+    # the public range attributes are re-assigned on a generator that was already used: the
+    # following instances lie inside the new ranges
+    if case["seed"] % 6 == 1 and p["allow_less_jobs_than_machines"] and kr[1] == 1:
+        gr = make(p)
+        gr.generate()
+        new_j = (jr0 := rng_pair(p["num_jobs"]))[1] + rng.randint(1, 3)
+        gr.num_jobs_range = (new_j, new_j + 1)
+        new_m = rng_pair(p["num_machines"])[1] + rng.randint(1, 2)
+        gr.num_machines_range = (new_m, new_m)
+        p2 = dict(p, num_jobs=[new_j, new_j + 1], num_machines=[new_m, new_m])
+        ctx.count("ranges_reassigned_on_a_used_generator")
+        for _ in range(3):
+            errs, _, jobs = check_instance(ctx, p2, gr.generate())
+            if errs:
+                ctx.violation("c19_instance_violates_requested_shape",
+                              {"params": p2, "errors": errs[:5], "instance": jobs,
+                               "where": "after num_jobs_range / num_machines_range were re-assigned"})
+                break
     # two generators alive at the same time do not share counters: names and iteration budgets
     ga = make(p)
     first_name = ga.generate().name
